@@ -393,6 +393,25 @@ def block_matching(ctx):
         ctx.finding(rule, f'{ps.file}:parse_string:unclosed-start',
                     'an unclosed block at end of input no longer raises '
                     'SyntaxError', ps.file, ps.line)
+    # positions raised inside a line (pyparsing errors and SyntaxError of
+    # parse actions) are line-relative: both must be shifted by the line
+    # offset
+    for exc, attr in (('ParseException', 'loc'), ('SyntaxError',
+                                                  'loc_start')):
+        ok = False
+        for h in ast.walk(ps.node):
+            if isinstance(h, ast.ExceptHandler) and h.name and \
+                    exc in unparse(h.type):
+                ok = pat.has(f'raise SyntaxError(..., loc=_L + '
+                             f'{h.name}.{attr})', h)
+                break
+        ctx.instance(rule, f'{ps.file}:parse_string:rewrap:{exc}')
+        if not ok:
+            ctx.finding(rule, f'{ps.file}:parse_string:rewrap:{exc}',
+                        f'parse_string does not re-raise {exc} from a line '
+                        f'with the line offset added to its position: the '
+                        f'diagnostic would point into the first line',
+                        ps.file, ps.line)
     bc = repo.func('qbee.stmt', 'Block.create')
     ok = pat.has('if not isinstance(end_stmt, __):\n'
                  '    raise SyntaxError(...)', bc.node)
